@@ -19,14 +19,86 @@ from .facts import Fn
 
 
 def default_policy(caller, callee):
-    """inline private (non-pub) free functions / inherent methods of the same crate"""
+    """inline private (non-pub) free functions / inherent methods of the same crate (and every higher-order helper)"""
     if callee is None or callee.kind not in ("Fn", "AssocFn"):
         return False
     if callee.crate.name != caller.crate.name:
         return False
-    if callee.pub or callee.impl_trait is not None:
+    if callee.impl_trait is not None:
+        return False
+    if callee.pub and not higher_order(callee):
         return False
     return True
+
+
+import re
+
+_HO = {}
+TYPARAM = re.compile(r"^(?:&(?:'\w+ )?(?:mut )?)?([A-Z]\w?)$")
+
+
+def higher_order(callee):
+    """does the callee take a closure / a value of a bare type parameter (generic over a workspace trait)?  Such a helper
+    cannot be analysed on its own (unresolved trait calls, unknown closure): it is always analysed inside its callers."""
+    if callee is None or callee.kind not in ("Fn", "AssocFn") or callee.pub:
+        return False          # (public generic entry points such as the runners are units of their own)
+    r = _HO.get(callee.path)
+    if r is not None:
+        return r
+    r = False
+    tparams = set()
+    for k in range(1, callee.body.arg_count + 1):
+        ty = callee.body.local_ty(k)
+        if "impl Fn" in ty or "{closure@" in ty or "dyn Fn" in ty:
+            r = True
+        m_ = TYPARAM.match(ty)
+        if m_:
+            tparams.add(m_.group(1))
+    if not r and tparams:
+        # generic over a WORKSPACE trait: an unresolved call of a bourse_* trait method on a value of a bare type parameter
+        # (generators `R: RngCore`, distributions etc. are ordinary parameters)
+        for b in callee.body.blocks:
+            t = b.term
+            if t is None or t.k != "call":
+                continue
+            tr = t.j.get("trait") or ""
+            if tr.startswith("bourse_") and t.j.get("resolved_kind") != "item" and t.args and t.args[0].place is not None:
+                m2 = TYPARAM.match(t.args[0].place.ty)
+                if m2 and m2.group(1) in tparams:
+                    r = True
+                    break
+        if not r:
+            for b in callee.body.blocks:
+                t = b.term
+                if t is not None and t.k == "call" and (t.j.get("trait") or "") in ("std::ops::Fn", "std::ops::FnMut", "std::ops::FnOnce") and t.args and t.args[0].place is not None:
+                    m2 = TYPARAM.match(t.args[0].place.ty)
+                    if m2 and m2.group(1) in tparams:
+                        r = True
+                        break
+    _HO[callee.path] = r
+    return r
+
+
+def must_inline_policy(caller, callee):
+    """unit views (World.q): only what cannot stand alone is spliced into its callers"""
+    if callee is None or callee.crate.name != caller.crate.name or callee.impl_trait is not None:
+        return False
+    return higher_order(callee)
+
+
+def _unify(callee_ty, arg_ty, out):
+    """bind bare type parameters of the callee's parameter type to the argument's type (reference prefixes dropped)"""
+    m_ = TYPARAM.match(callee_ty or "")
+    if not m_ or not arg_ty:
+        return
+    a = re.sub(r"^&(?:'\w+ )?(?:mut )?", "", arg_ty)
+    out[m_.group(1)] = a
+
+
+def _subst_ty(ty, binds):
+    for k, v in binds.items():
+        ty = re.sub(r"(?<![\w:])%s(?![\w:<])" % re.escape(k), v, ty)
+    return ty
 
 
 def _shift_place(pl, off, boff, prom_off):
@@ -101,11 +173,56 @@ def _shift_block(b, off, boff, prom_off):
 
 
 class Inliner:
-    def __init__(self, prog, policy=default_policy, max_depth=8):
+    def __init__(self, prog, policy=default_policy, max_depth=8, closure_calls=True):
         self.prog = prog
         self.policy = policy
         self.max_depth = max_depth
+        self.closure_calls = closure_calls
         self._memo = {}
+
+    # ------------------------------------------------------------------ closure values
+    def _single_def(self, j, l):
+        """the unique whole assignment `_l = rvalue` in j (None if none / several / a call destination)"""
+        found = None
+        for b in j["blocks"]:
+            for st in b["stmts"]:
+                if st["k"] == "assign" and st["pl"]["l"] == l and not st["pl"]["p"]:
+                    if found is not None:
+                        return None
+                    found = st["rv"]
+            t = b["term"]
+            if t and t["k"] == "call" and t["dest"]["l"] == l and not t["dest"]["p"]:
+                return None
+        return found
+
+    def _closure_callee(self, j, t):
+        """closure Fn called by a `Fn::call / FnMut::call_mut / FnOnce::call_once` terminator, if its aggregate is in j"""
+        if (t.get("trait") or "") not in ("std::ops::Fn", "std::ops::FnMut", "std::ops::FnOnce", "core::ops::Fn", "core::ops::FnMut", "core::ops::FnOnce"):
+            return None
+        if not t["args"] or t["args"][0].get("k") not in ("copy", "move"):
+            return None
+        pl = t["args"][0]["pl"]
+        l = pl["l"]
+        seen = set()
+        while l not in seen:
+            seen.add(l)
+            rv = self._single_def(j, l)
+            if rv is None:
+                return None
+            k = rv["k"]
+            if k == "agg" and rv.get("ak") == "closure":
+                class R:
+                    pass
+                r = R()
+                r.j = rv
+                return self.prog.closure_fn(r)
+            if k in ("ref", "rawptr") and all(p["k"] == "deref" for p in rv["pl"]["p"]):
+                l = rv["pl"]["l"]
+            elif k == "use" and rv["o"].get("k") in ("copy", "move") and all(p["k"] == "deref" for p in rv["o"]["pl"]["p"]):
+                l = rv["o"]["pl"]["l"]
+            else:
+                return None
+        return None
 
     def inlined(self, fn, _stack=()):
         key = fn.path
@@ -123,7 +240,18 @@ class Inliner:
                 if b["cleanup"] or not t or t["k"] != "call":
                     continue
                 callee = self._target(t)
-                if callee is None or callee.path == fn.path or callee.path in _stack or len(_stack) >= self.max_depth:
+                if callee is None:
+                    # a call of a closure VALUE whose definition is visible in this body (`f(x)` inside an inlined helper that
+                    # received `|x| ..` from its caller): splice the closure body
+                    clo = self._closure_callee(j, t)
+                    if clo is not None and clo.path != fn.path and clo.path not in _stack and len(_stack) < self.max_depth and self.closure_calls:
+                        cj = self.inlined(clo, _stack + (fn.path,)).j
+                        self._splice(j, b, copy.deepcopy(cj), closure_call=True)
+                        inlined_names.append(clo.path)
+                        changed = True
+                        break
+                    continue
+                if callee.path == fn.path or callee.path in _stack or len(_stack) >= self.max_depth:
                     continue
                 if not self.policy(fn, callee):
                     continue
@@ -145,11 +273,30 @@ class Inliner:
         x.j = t
         return self.prog.target(x)
 
-    def _splice(self, j, blk, cj):
+    def _splice(self, j, blk, cj, closure_call=False):
         off = len(j["locals"])
         boff = len(j["blocks"])
         prom_off = len(j.get("promoted", []))
         t = blk["term"]
+        # generic instantiation: bare type parameters of the callee bound by the argument types of this call
+        binds = {}
+        if not closure_call:
+            for k, a in enumerate(t["args"]):
+                if 1 + k < len(cj["locals"]) and a.get("k") in ("copy", "move"):
+                    _unify(cj["locals"][1 + k]["ty"], a["pl"].get("ty", ""), binds)
+        if binds:
+            for l in cj["locals"]:
+                l["ty"] = _subst_ty(l["ty"], binds)
+            for cb in cj["blocks"]:
+                for st in cb["stmts"]:
+                    if "ty" in st["pl"]:
+                        st["pl"]["ty"] = _subst_ty(st["pl"]["ty"], binds)
+                ct = cb["term"]
+                if ct and ct["k"] == "call":
+                    for a in ct["args"]:
+                        if a.get("k") in ("copy", "move") and "ty" in a["pl"]:
+                            a["pl"]["ty"] = _subst_ty(a["pl"]["ty"], binds)
+                    self._resolve_trait_call(ct)
         # locals
         for l in cj["locals"]:
             l2 = dict(l)
@@ -180,7 +327,41 @@ class Inliner:
                     cb["term"] = {"k": "goto", "t": target, "sp": sp}
             j["blocks"].append(cb)
         # argument passing
-        for k, a in enumerate(t["args"]):
-            blk["stmts"].append({"k": "assign", "pl": {"l": off + 1 + k, "p": [], "ty": cj["locals"][1 + k]["ty"] if 1 + k < len(cj["locals"]) else ""},
-                                 "rv": {"k": "use", "o": copy.deepcopy(a)}, "sp": sp})
+        if closure_call:
+            # `Fn::call(&closure, (a, b))`: the closure body takes (env, a, b): the tuple is spread
+            blk["stmts"].append({"k": "assign", "pl": {"l": off + 1, "p": [], "ty": cj["locals"][1]["ty"] if len(cj["locals"]) > 1 else ""},
+                                 "rv": {"k": "use", "o": copy.deepcopy(t["args"][0])}, "sp": sp})
+            n_spread = max(0, cj.get("arg_count", 1) - 1)
+            tup = t["args"][1] if len(t["args"]) > 1 else None
+            for i in range(n_spread):
+                ty = cj["locals"][2 + i]["ty"] if 2 + i < len(cj["locals"]) else ""
+                if tup is not None and tup.get("k") in ("copy", "move"):
+                    o = copy.deepcopy(tup)
+                    o["k"] = "copy"
+                    o["pl"]["p"] = list(o["pl"]["p"]) + [{"k": "field", "i": i, "n": str(i), "on": "tuple"}]
+                    o["pl"]["ty"] = ty
+                else:
+                    o = {"k": "other", "s": "closure argument"}
+                blk["stmts"].append({"k": "assign", "pl": {"l": off + 2 + i, "p": [], "ty": ty}, "rv": {"k": "use", "o": o}, "sp": sp})
+        else:
+            for k, a in enumerate(t["args"]):
+                blk["stmts"].append({"k": "assign", "pl": {"l": off + 1 + k, "p": [], "ty": cj["locals"][1 + k]["ty"] if 1 + k < len(cj["locals"]) else ""},
+                                     "rv": {"k": "use", "o": copy.deepcopy(a)}, "sp": sp})
         blk["term"] = {"k": "goto", "t": boff, "sp": sp}
+
+    def _resolve_trait_call(self, ct):
+        """after generic instantiation: `<S as Trait>::m(&mut s)` with s now of a concrete workspace type -> that type's impl"""
+        tr = ct.get("trait")
+        if not tr or ct.get("resolved_kind") == "item" or not ct["args"]:
+            return
+        a0 = ct["args"][0]
+        if a0.get("k") not in ("copy", "move"):
+            return
+        ty = re.sub(r"^&(?:'\w+ )?(?:mut )?", "", a0["pl"].get("ty", ""))
+        name = (ct.get("callee") or "").split("::")[-1]
+        for f in self.prog.fns.values():
+            if f.name == name and f.impl_trait and (f.impl_trait == tr or f.impl_trait.split("<")[0] == tr) and (f.impl_self or f.impl_adt or "").split("<")[0] == ty.split("<")[0]:
+                ct["resolved_dp"] = f.dp
+                ct["resolved_kind"] = "item"
+                ct["resolved"] = "<%s as %s>::%s" % (ty, tr, name)
+                return
